@@ -47,6 +47,10 @@ def handle : Handler
   | "alias_cdiv_r", args => run3 cdiv_r args
   | "alias_mod", args => run3 AliasMem.mod args
   | "alias_divexact", args => run3 divexact args
+  | "alias_and", args => run3 mpz_and args
+  | "alias_ior", args => run3 mpz_ior args
+  | "alias_xor", args => run3 mpz_xor args
+  | "alias_com", args => run3 (fun w u _ => mpz_com w u) args
   | "alias_mul_2exp", args => runB mul_2exp args
   | "alias_tdiv_q_2exp", args => runB tdiv_q_2exp args
   | _, _ => none
